@@ -19,6 +19,12 @@ ChainRecs(rv, rs, cs) ==
   ELSE LET r == AddRecord(rv, rs[1], cs, TRUE) IN
        IF r.out # Ok THEN [out |-> r.out, conv |-> rv]
        ELSE ChainRecs(r.conv, Tail(rs), cs)
+\* coverage signature of a chain: every kind of match met while folding
+RECURSIVE ChainKinds(_, _, _)
+ChainKinds(rv, rs, cs) ==
+  IF rs = <<>> THEN {}
+  ELSE LET r == AddRecord(rv, rs[1], cs, TRUE) IN
+       MatchKinds(rv, rs[1], cs) \cup (IF r.out # Ok THEN {"bridge"} ELSE ChainKinds(r.conv, Tail(rs), cs))
 RECURSIVE ConcatRecs(_)
 ConcatRecs(cseq) == IF cseq = <<>> THEN <<>> ELSE cseq[1].recs \o ConcatRecs(Tail(cseq))
 Chain(cseq, cs) ==
@@ -92,9 +98,10 @@ RemapLoop2(c, m, live, seq, br) ==
             IN IF own # 0 /\ own # i THEN RemapLoop2(c, m, live, Tail(seq), Append(br, "clash-" \o how))  \* clash: skip
                ELSE IF old \in (MKeys(m) \cap MVals(m)) /\ Taken(c, m, old)
                     THEN RemapLoop2(c, m, [live EXCEPT ![i] = [rec EXCEPT !.ps = (@ \cup {rec.p}) \ {old, new}, !.p = new]],
-                                    Tail(seq), Append(br, "handover-" \o how))
+                                    Tail(seq), Append(br, "handover-" \o how \o (IF rec.ps \ {old, new} # {} THEN "+names" ELSE "")))
                     ELSE RemapLoop2(c, m, [live EXCEPT ![i] = [rec EXCEPT !.ps = (@ \cup {rec.p}) \ {new}, !.p = new]],
-                                    Tail(seq), Append(br, (IF own = i THEN "own-" ELSE "plain-") \o how))
+                                    Tail(seq), Append(br, (IF own = i THEN "own-" ELSE IF old \in (MKeys(m) \cap MVals(m)) THEN "untaken-" ELSE "plain-") \o how
+                                                                   \o (IF rec.ps \ {old, new} # {} THEN "+names" ELSE "")))
 RemapLoop(c, m, live, seq) == RemapLoop2(c, m, live, seq, <<>>).live
 RemapBranches(c, m) ==
   LET o == OrderRemapping(c, m) IN
